@@ -55,6 +55,25 @@ class C01(SweepProp):
                                    'c01.tdep_cp_checked'],
                 'min_evaluated': 1000}
 
+    def extend_case(self, case, S, tier):
+        # near-twin flows (own random stream): in 30 % of the worlds every
+        # further position of a type gets the flow of the first one up to the
+        # fifth digit - valid input, and the place where anything keyed or
+        # cached by a rounded flow rate would hand one assembly the
+        # constants of another
+        g = S('neartwin')
+        if not rng.chance(g, 0.3):
+            return
+        first = {}
+        for p in case['spec']['positions']:
+            if not p:
+                continue
+            q = first.setdefault(p['type'], p)
+            if q is not p:
+                q['bc'] = p['bc'] = 'FLOWRATE'
+                p['flow'] = world._r(q['flow'] * (1 + 1.2e-5), 6)
+                case['neartwin'] = True
+
     def monitors(self, case, spec):
         return [oracles.LedgerC01(bool(spec.get('const')),
                                   spec['core']['gap_model'] == 'none')]
